@@ -48,8 +48,10 @@ class GssMonitor:
             closure_checks=0,
             closure_paths=0,
             frontiers=0,
+            multi_revisit=0,
         )
         self._limited = None
+        self._revisit_ctx = None
         self._keep = []
 
     def fold(self):
@@ -85,6 +87,12 @@ class GssMonitor:
             mon._limited = update_parent
             if update_parent is not None:
                 mon.c["limited"] += 1
+                # heads revisited because of one new link: more than one means their order matters
+                rc = mon._revisit_ctx
+                if rc is not None and id(head) not in rc:
+                    rc.add(id(head))
+                    if len(rc) == 2:
+                        mon.c["multi_revisit"] += 1
             try:
                 return o["red"](self, head, production, update_parent)
             finally:
@@ -107,7 +115,12 @@ class GssMonitor:
                 lim,
                 head.id,
             )
-            return o["reduce"](self, head, root_head, production, node_nonterm, start_position, end_position)
+            prev_rc = mon._revisit_ctx
+            mon._revisit_ctx = set()
+            try:
+                return o["reduce"](self, head, root_head, production, node_nonterm, start_position, end_position)
+            finally:
+                mon._revisit_ctx = prev_rc
 
         def create_link(self, parent):
             existing = self.parents.get(parent.root.id)
